@@ -180,6 +180,12 @@ def canonical(rng, ntracks: int, titles=True, nidx=(1, 3), name="disc.bin", firs
 WS = [" ", "\t", "\x0b", "\x0c", "\x1c", "\x1f", "  \t "]
 UNKNOWN = ["REM GENRE Rock", "PERFORMER \"Somebody\"", "FLAGS DCP", "PREGAP 00:02:00", "ISRC ABCDE1234567", "CATALOG 1234567890123",
            "REM TRACK 01 AUDIO", "SONGWRITER \"x\"", "POSTGAP 00:00:10"]
+# unknown lines whose TEXT holds a cue keyword phrase (S54): recognised only if a pattern is searched for
+# instead of matched at the start of the line
+KEYWORDY = ['REM TITLE "Alternative Title"', 'REM INDEX 00 00:00:00', 'PERFORMER "INDEX 01 00:00:00"', 'REM ORIGINAL TITLE "x"',
+            'REM FILE "other.bin" BINARY', 'SONGWRITER "TRACK 09 AUDIO"', 'REM see INDEX 07 12:34:56', 'xTITLE "glued"', 'REMINDEX 01 00:00:01',
+            'PERFORMER "TITLE "inner""']
+UNKNOWN = UNKNOWN + KEYWORDY
 
 
 def recase(line: str, rng) -> str:
@@ -219,7 +225,7 @@ def cosmetic_variants(rng, lines: List[str], budget: int):
         yield ("blankline", i), v
     # 4. unknown line before FILE, or anywhere after the first TRACK line
     for i in [0] + list(range(first_track + 1, n + 1)):
-        for u in (rng.sample(UNKNOWN, 3) if budget < 2000 else UNKNOWN):
+        for u in ((rng.sample(UNKNOWN[:-len(KEYWORDY)], 2) + rng.sample(KEYWORDY, 3)) if budget < 2000 else UNKNOWN):
             v = list(lines)
             v.insert(i, "  " + u + "\n")
             yield ("unknown", i), v
